@@ -82,6 +82,9 @@ func NewInterp(modules *pbsubstreams.Modules, output string) (*Interp, error) {
 	return it, nil
 }
 
+// InitOf: the initial block of module name.
+func (it *Interp) InitOf(name string) uint64 { return it.mods[name].InitialBlock }
+
 func (it *Interp) LowestInit() uint64 {
 	low := ^uint64(0)
 	for _, n := range it.order {
